@@ -119,7 +119,11 @@ def write_evidence(prop, level, coverage, assumptions, wall_s, violations, extra
 
         schema_path = "/root/.vp/EVIDENCE.schema.json"
         if os.path.exists(schema_path):
-            jsonschema.validate(ev, json.load(open(schema_path)))
+            try:
+                jsonschema.validate(ev, json.load(open(schema_path)))
+            except jsonschema.exceptions.ValidationError as e:
+                # e.g. nothing could be decided in this run: the evidence stays on disk (and is not valid evidence), the check reports INCONCLUSIVE
+                print("NOTE evidence for %s does not satisfy the schema: %s" % (prop, str(e).splitlines()[0]))
     except ImportError:
         pass
     return path
